@@ -286,4 +286,27 @@ PROPS['C17'] = {
     'design_ref': 'DESIGN.md section 5 C17',
 }
 
+PROPS['C18'] = {
+    'modules': FS_MODULES + ['contracts.repozo'],
+    'lemmas': [],
+    'level': 'proof',
+    'bounded': [
+        {'func': 'ZODB.scripts.repozo:<backup-recover-verify>',
+         'bound': '{quick on/off} x {gzip on/off}: 6 backup rounds (first full, then incremental; one with a voted '
+                  'unfinished transaction, one after a pack); recover as of every backup stamp compared byte for byte '
+                  'with the committed prefix at that backup; index restored and usable; verify intact and after every '
+                  'single-file damage (missing/truncated/altered) with full and quick verification'},
+    ],
+    'text': 'dofile proved for all files, positions and counts: the chunks handed to the callback, concatenated, are '
+            'exactly the next min(n, available) bytes in order, the count is returned, the loop terminates (every '
+            'checksum/copy/concat is a fold of it); do_full_backup / do_incremental_backup proved to open the source '
+            'read-only, copy exactly [0, committed end) resp. [backed-up size, committed end), save the index at the '
+            'committed end under the SAME time stamp as the data chunk (one clock reading), and record (file, start, '
+            'end, checksum) in the .dat of the right full backup, forced to disk; read_index (read-only) proved to '
+            'report the committed end, i.e. complete transactions only.',
+    'note': 'Assumes A-MD5, A-GZIP, A-FILENAMES. copyfile/concat/find_files/scandat/do_backup decision/do_recover/'
+            'do_verify are covered by the bounded harness only (string and directory-listing code).',
+    'design_ref': 'DESIGN.md section 5 C18',
+}
+
 NOT_YET = {}
